@@ -99,6 +99,15 @@ def flat_expected(S, t, padded):
     return out
 
 
+def corner(S, t):
+    """a two-scalar struct with internal padding (transitively) inside an aggregate that contains a union: the one place where the
+    generated JS departs from docs/wasm_abi_quirks.md (recorded finding, Layout/Flat.v corner_differs)"""
+    if t[0] != "struct":
+        return False
+    direct = scalars(S, t) is None and any(ft[0] == "struct" and scalars(S, ft) == 2 for _, ft in S[t[1]])
+    return direct or any(corner(S, ft) for _, ft in S[t[1]])
+
+
 def flat_top(S, t):
     n = scalars(S, t)
     return flat_expected(S, t, n is None or n > 2)
@@ -269,6 +278,8 @@ def check(ctx, replay=None):
             S.update({"Triple": [("pair", ("struct", "Pair")), ("c", ("prim", "u8"))], "Quad": [("p", ("struct", "Pair")), ("x", ("prim", "u16")), ("y", ("prim", "u64"))],
                       "Millis": [("value", ("prim", "u16"))], "Settings": [("id", ("prim", "u32")), ("timeout", ("struct", "Millis")), ("retries", ("prim", "u8"))],
                       "WrapPair": [("inner", ("struct", "Pair"))],
+                      # the recorded corner: a padded two-scalar struct next to a union, directly and one level down
+                      "CornerU": [("p", ("struct", "Pair")), ("o", ("opt", ("prim", "u8")))], "CornerDeep": [("c", ("struct", "CornerU")), ("t", ("prim", "u16"))],
                       # three levels: a padded two-scalar struct inside a two-scalar wrapper inside a struct with more scalars
                       "Large3": [("m", ("struct", "WrapPair")), ("x", ("prim", "u16")), ("y", ("prim", "u16"))],
                       "WrapWrapPair": [("w", ("struct", "WrapPair"))], "Large4": [("a", ("prim", "u8")), ("m", ("struct", "WrapWrapPair")), ("z", ("prim", "i64"))], "OptS": [("a", ("prim", "u8")), ("o", ("opt", ("struct", "Settings"))), ("z", ("prim", "i64"))],
@@ -421,6 +432,12 @@ def check(ctx, replay=None):
                     for a, w in zip(args, want):
                         if w == "P" and a not in (0, "0n"):
                             ok = False
+                    if not ok and corner(S, t(n)):
+                        # known finding: compared with what Layout/Model.v says the JS does (flat_js_top), not with the documented rule
+                        ctx.violation("legacy-flatten:two-scalar-struct-beside-union", dict(ctxinfo, what=f"wasm export received {args} ({len(args)} slots); docs/wasm_abi_quirks.md "
+                                      f"prescribes {''.join(want)} ({len(want)} slots): the padding of a two-scalar struct inside an aggregate that holds a union is not passed"), True)
+                        goals.append(f"Nat.eqb (length (flat_js_top {coq_fty(S, t(n))})) {len(args)}")
+                        continue
                     if not ok:
                         violate("direct:flatten:legacy", dict(ctxinfo, what=f"wasm export received {args} ({len(args)} slots); the legacy ABI prescribes the slot pattern {''.join(want)} ({len(want)} slots)"))
                     # observed pattern: a slot is padding iff the model-independent expectation says so and it holds 0
@@ -447,7 +464,7 @@ def check(ctx, replay=None):
         "Modelled, not verified: js/layout.rs (struct_field_info, type_size_alignment_and_scalar_count, ScalarCount), the forcePadding logic of "
         "js/gen.rs + struct.js.jinja, byte-level reads/writes (Layout/Model.v). No wasm32 Rust target exists here: the legacy flattened argument "
         "list is checked against the rule documented in docs/wasm_abi_quirks.md, not against rustc's wasm code generator; i128/u128, slices and "
-        "opaque fields are not generated; a 2-scalar struct directly inside an aggregate containing a union is excluded (unresolved corner)",
+        "opaque fields are not generated; a 2-scalar struct inside an aggregate containing a union is a recorded finding (two fixed shapes exercise it; the random generator leaves it out)",
         samples, ["float fields use exactly representable values; padding bytes are not compared"],
         {"struct_families": 2 if ctx.quick() else 10, "values": nvals, "fallible_returns": nfall})
 
